@@ -20,8 +20,8 @@ CLAIMED = {
         design="5/C19",
         note="Process-kill semantics only (no power-loss reordering); a single write(2) is not torn by SIGKILL; crash points are the hook calls of commit a17b149. No axioms."),
     "C05": dict(
-        technique="Coq induction over the frames of an arbitrary input stream (accepted frames = the sent ones or a forgery event), for any AEAD with open∘seal=id and for the Gallina ChaCha20-Poly1305 instance; differential correspondence on exhaustively bit-flipped / truncated / permuted / replayed / reflected streams",
-        text="C05_prefix_or_forgery quantifies over every key, counter, plaintext list and EVERY input byte string; the code's receive loop releases a frame-prefix of what was sent, ends cleanly only on an exact frame-prefix and errs no later than the first altered frame, unless open accepted a frame the peer never sealed (the AEAD's INT-CTXT assumption, stated not proved). Key separation is proved for the labels regenerated from the Go source. The extracted model (with its own ChaCha20-Poly1305/HKDF-SHA-512, RFC-vector checked) and hc's session run on the same altered streams; an independent oracle checks the prefix property on hc's output.",
+        technique="Coq induction over the frames of an arbitrary input stream (accepted frames = the sent ones or a forgery event), for any AEAD with open∘seal=id and for the Gallina ChaCha20-Poly1305 instance, at the session (Decrypt loop) and at the connection (hap.Connection.Read over arbitrary socket schedules, the caller reading on after errors); differential correspondence on exhaustively bit-flipped / truncated / permuted / replayed / reflected streams at both levels",
+        text="C05_prefix_or_forgery quantifies over every key, counter, plaintext list and EVERY input byte string; the code's receive loop releases a frame-prefix of what was sent, ends cleanly only on an exact frame-prefix and errs no later than the first altered frame, unless open accepted a frame the peer never sealed (the AEAD's INT-CTXT assumption, stated not proved). Key separation is proved for the labels regenerated from the Go source. The extracted model (with its own ChaCha20-Poly1305/HKDF-SHA-512, RFC-vector checked) and hc's session run on the same altered streams; an independent oracle checks the prefix property on hc's output. C05_connection_prefix_or_forgery lifts the statement to hap.Connection.Read for every socket schedule and every sequence of reads (found necessary: the read path delivered frames following an undecryptable one, repaired by 1e7d383).",
         design="5/C05",
         note="Cryptographic assumption = no forgery event; x/crypto primitives trusted to implement the RFCs (cross-checked against the Gallina instance byte for byte). No axioms."),
     "C06": dict(
